@@ -89,6 +89,15 @@ def arg_code(atom, n, v, prefix):
         return [], ["%s%s" % (prefix, v[0])], []
     if isinstance(atom, A.ClsArg):
         return [], ["&zz_obj%d" % v], []
+    if isinstance(atom, A.PtrPtrOut):
+        if atom.form == "fixed":
+            return ["%s *%s = NULL;" % (atom.t.cname, z)], ["&" + z], [obs_arr(atom.t, z, 3)]
+        return ["%s *%s = NULL; int %s_n = -1;" % (atom.t.cname, z, z)], ["&" + z, "&%s_n" % z], [obs_arr(atom.t, z, "%s_n" % z)]
+    if isinstance(atom, A.VoidPtr):
+        return ["int %s = %d;" % (z, v)], ["&" + z], ["obs_i(%s);" % z]
+    if isinstance(atom, A.StrArrIn):
+        ln, texts = v
+        return ["char *%s[%d] = {%s};" % (z, len(texts), ", ".join(cstr(t.rstrip(" ")) for t in texts))], [z, "%d" % len(texts)], []
     if isinstance(atom, A.StructArg):
         ti, td = A.NATIVE["int"], A.NATIVE["double"]
         if atom.intent == "out":
